@@ -88,6 +88,10 @@ func (n *Node) update(topic format.Topic, f func([]byte) []byte) {
 		n.Data = f(n.Data)
 	} else {
 		topic, token := topic.Next()
+		if n.Children == nil {
+			// nodes rebuilt by Load have no map yet
+			n.Children = make(map[string]*Node)
+		}
 		child, ok := n.Children[token]
 		if !ok {
 			child = newNode()
